@@ -61,6 +61,19 @@ pub fn run(ctx: &mut Ctx) {
         ];
         for fam in &families { for b in [0u32, 1, 2, 256, 257, 511, 3, 17] { closure_case(ctx, fam, &TOpts::from_bits(b | 1), "unseen_variant_below_nullable"); } }
     }
+    // directed family: every kind of null marker (None, unit, unit struct) next to every kind of scalar or
+    // container at one position, in both orders
+    {
+        use crate::arrgen::IK;
+        let nulls = [Val::None, Val::Unit, Val::UnitStruct];
+        let others = vec![Val::Bool(true), Val::Int(IK::I8, -1), Val::Int(IK::U64, 7), Val::F32(0), Val::F64(0), Val::Char('x'), Val::Str("s".into()), Val::Bytes(vec![1, 2]),
+            Val::Seq(vec![Val::Int(IK::I32, 1)]), Val::Struct(vec![("q".into(), Val::Bool(false))], 0), Val::Map(vec![(Val::Str("k".into()), Val::Int(IK::I32, 1))]), Val::Tuple(vec![Val::Bool(true), Val::Str("t".into())])];
+        for n in &nulls { for x in &others { for swap in [false, true] {
+            let (a, b2) = if swap { (x.clone(), n.clone()) } else { (n.clone(), x.clone()) };
+            let samples = vec![Val::Struct(vec![("p".into(), a)], 0), Val::Struct(vec![("p".into(), b2)], 0)];
+            for b in [0u32, 1, 4, 128, 511] { closure_case(ctx, &samples, &TOpts::from_bits(b), "null_marker_next_to_value"); }
+        } } }
+    }
     // all 2^9 option sets on a fixed family
     let fam = if ctx.thorough { 40 } else { 6 };
     let mut frng = crate::rng::Rng::new(777);
